@@ -1,4 +1,5 @@
 """C12 - join and union results do not depend on how parent streams interleave (spec/JoinUnion)."""
+import concurrent.futures
 import os
 
 import verifylib as V
@@ -13,6 +14,7 @@ ASSUME = [
 ]
 
 SPEC = "JoinUnion"
+PAR = 4   # JVMs per trace validation
 
 
 def _concat(sc, files, name):
@@ -27,30 +29,26 @@ def _concat(sc, files, name):
 
 def run(sc, tier, seed):
     R = V.Result("C12", tier, seed)
+    # this check starts ~16 JVMs; keep each of them small (other checks share the machine)
+    os.environ["JAVA_TOOL_OPTIONS"] = "-Xmx%s -XX:ParallelGCThreads=4 -XX:CICompilerCount=2" % ("4g" if tier == "quick" else "8g")
     V.build_harness()
     quick = tier == "quick"
     # ---- design level: every interleaving x every input x every setting inside the bound ----
+    t = "quick" if quick else "thorough"
     models = [
-        ("CircularQueue.tla", "CircularQueue_quick.cfg" if quick else "CircularQueue_thorough.cfg"),
-        ("UnionMC.tla", "Union_quick.cfg"),
-        ("UnionMC.tla", "Union_quick3.cfg" if quick else "Union_thorough.cfg"),
-        ("JoinMC.tla", "Join_quick.cfg"),
-        ("JoinMC.tla", "JoinOn_quick.cfg" if quick else "JoinOn_thorough.cfg"),
+        ("CircularQueue.tla", "CircularQueue_%s.cfg" % t),
+        ("UnionMC.tla", "Union_%s.cfg" % t),
+        ("JoinMC.tla", "Join_%s.cfg" % t),
+        ("JoinMC.tla", "JoinOn_%s.cfg" % t),
     ]
-    if quick:
-        models.append(("JoinMC.tla", "Join_quick3.cfg"))
-    else:
-        models += [("JoinMC.tla", "Join_thorough.cfg"), ("JoinMC.tla", "Join_thorough2g.cfg")]
-    per_model = {}
-    for mod, cfg in models:
-        res = V.model_check(sc, SPEC, mod, cfg, timeout=1500)
-        R.add_model(res)
-        per_model[cfg] = {"distinct": res["distinct"], "generated": res["states"], "wall_s": round(res["wall"], 1)}
+    # the model runs are independent: run them side by side with the drivers (2 at a time, 6 workers each)
+    pool = concurrent.futures.ThreadPoolExecutor(max_workers=2)
+    futs = [(cfg, pool.submit(V.model_check, sc, SPEC, mod, cfg, 6, 2400)) for mod, cfg in models]
 
     # ---- CircularQueue: exported, driven directly ----
     out, meta = V.run_driver(sc, "c12cq", tier, seed)
     R.add_meta(meta)
-    val = V.validate_traces(sc, SPEC, "CircularQueueTrace.tla", "CircularQueueTrace.cfg", meta["trace_files"])
+    val = V.validate_traces(sc, SPEC, "CircularQueueTrace.tla", "CircularQueueTrace.cfg", meta["trace_files"], parallel=PAR)
     R.states += val["states"]
     R.handle_validation(val, "CircularQueue observation (Len/Peek) not explained by CircularQueue.tla")
 
@@ -58,19 +56,25 @@ def run(sc, tier, seed):
     out2, meta2 = V.run_driver(sc, "c12", tier, seed)
     R.add_meta(meta2)
     allf = _concat(sc, meta2["trace_files"], "joinunion.ndjson")
-    val2 = V.validate_traces(sc, SPEC, "JoinUnionTrace.tla", "JoinUnionTrace.cfg", [allf])
+    val2 = V.validate_traces(sc, SPEC, "JoinUnionTrace.tla", "JoinUnionTrace.cfg", [allf], parallel=PAR)
     R.states += val2["states"]
     R.handle_validation(val2, "join/union outputs differ from the schedule-free reference")
     # drift level: the same traces stepped through the code-shaped models (never a verdict)
     drift = []
     if val2["accepted"]:
-        val3 = V.validate_traces(sc, SPEC, "JoinUnionTrace.tla", "JoinUnionImplTrace.cfg", [allf])
+        val3 = V.validate_traces(sc, SPEC, "JoinUnionTrace.tla", "JoinUnionImplTrace.cfg", [allf], parallel=PAR)
         R.states += val3["states"]
         for fp, line_no, res in val3["rejections"]:
             seg, _ = V.segment_of(fp, line_no)
             drift.append({"reset": seg[0][:300] if seg else "?", "line": seg[-1][:300] if seg else "?"})
         if drift:
             V.log("impl drift: %d trace(s) accepted at verdict level are not behaviours of Join.tla/Union.tla (model update needed, not a violation)" % len(drift))
+    per_model = {}
+    for cfg, f in futs:
+        res = f.result()
+        R.add_model(res)
+        per_model[cfg] = {"distinct": res["distinct"], "generated": res["states"], "wall_s": round(res["wall"], 1)}
+    pool.shutdown()
     return R.finish("model_checking", ASSUME, {"model_runs": per_model, "impl_drift": drift[:5], "impl_drift_count": len(drift)})
 
 
